@@ -95,7 +95,9 @@ def check(h):
         if t == wire.T_CONF:
             # knowledge counts as of the latest (re)start of this transfer: a transfer already
             # in progress cannot be re-segmented when an I-Am arrives in the middle of it
-            if not a['seg'] or a['seq'] == 0:
+            # (sequence number 0 comes round again at segment 256, 512, ...: a first segment is recognised by the service
+            # parameters of the harness' private transfer it starts with)
+            if not a['seg'] or (a['seq'] == 0 and bytes(a['data'][:3]) == b'\x0a\x03\xe7'):
                 k3 = (node, dst, a['invoke'])
                 prev = start_oct.get(k3)
                 if (a['seg'] and prev is not None and prev[1] == f['octets']
